@@ -161,6 +161,8 @@ MUTANTS = [
     M('parser:index_expr:swallows-all-index-operators', 'parser', ['C05'], 'index_expr', '    index_operator(p);\n', '    while p.at(T![\'[\']) && !p.at(EOF) {\n        index_operator(p);\n    }\n'),
     M('parser:if_stmt:else-if-continues-the-node', 'parser', ['C05'], 'if_stmt', '            let m = p.start();\n            if_stmt(p, m);\n', '            return if_stmt(p, m);\n'),
     M('parser:postfix:call-result-indexed-as-identifier', 'parser', ['C05'], 'postfix_expr', 'IDENTIFIER => indexed_identifier(p, lhs),', 'IDENTIFIER | CALL_EXPR => indexed_identifier(p, lhs),'),
+    M('parser:array_type_spec:keyword-bumped-blindly', 'parser', ['C12'], 'array_type_spec', '    p.expect(T![array]);\n', '    p.bump_any();\n'),
+    M('parser:var_name:any-token-is-a-name', 'parser', ['C12'], 'var_name', '    if p.at(IDENT) {', '    if !p.at(EOF) {'),
     # ---- LEX extents
     M('lex:line_comment:stops-at-space', 'lex', ['C15', 'C14'], "Cursor<'_>::line_comment", "{ c != '\\n' });", "{ c != '\\n' && c != ' ' });"),
     M('lex:eat_identifier:start-test-inverted', 'lex', ['C15'], "Cursor<'_>::eat_identifier", 'if !is_id_start(self.first()) {', 'if is_id_start(self.first()) {'),
